@@ -674,10 +674,11 @@ def refine_droplet(
     bounds = l[free], h[free]
 
     # determine the intensities outside and inside the droplet
+    # (converted to float since arithmetic with small integer data types overflows)
     if vmin is None:
-        vmin = np.min(data_mask)
+        vmin = float(np.min(data_mask))
     if vmax is None:
-        vmax = np.max(data_mask)
+        vmax = float(np.max(data_mask))
     vrng = vmax - vmin
 
     if adjust_values and vrng != 0:
